@@ -55,6 +55,7 @@ type engCtx struct {
 	eng     *document.TemplateEngine // the engine inside rnd
 	tmp     string                   // directory of the template files of this behaviour ("" = none yet)
 	files   int
+	pre     []engPreRec // concurrent runs: renders with undocumented data done alone after the setup
 	fmu     sync.Mutex
 	names   []string
 	probe   Op
